@@ -62,8 +62,15 @@ def mc_cfg(emit):
 # ------------------------------------------------------------------ driver
 SCALARS = [17, "text", None, 2.5, True, 0, "", -3]
 OK_KINDS = ["okf", "okc", "okn", "rebind"]
-RAISE_KINDS = ["raise", "cfgerr"]
+RAISE_KINDS = ["raise", "cfgerr", "raiseassert", "raiselookup"]
 NOLOAD_KINDS = ["nomodule", "missing", "notcallable", "nulltype"]
+
+
+# mapping keys need not be strings (YAML "1:" or "yes:"): the location of an element below such a
+# key is still ".<key>"; the driver renders some keys that way and maps them back
+KEYMAP = {"b": 1, "c": False, "d": -7}  # (1 and True would be ONE key)
+KEYBACK = {str(v): k for k, v in KEYMAP.items()}
+KEYS_ODD = [False]
 
 
 def path_key(path):
@@ -78,7 +85,7 @@ def render(tree, path, rnd, ids, scalars):
     if k == "L":
         return [render(t, path + [["i", i]], rnd, ids, scalars) for i, t in enumerate(tree[1])]
     if k == "M":
-        return {key: render(t, path + [["k", key]], rnd, ids, scalars) for key, t in tree[1]}
+        return {KEYMAP.get(key, key) if KEYS_ODD[0] else key: render(t, path + [["k", key]], rnd, ids, scalars) for key, t in tree[1]}
     if k == "T":
         ident = len(ids)
         kind = rnd.choice({"ok": OK_KINDS, "raises": RAISE_KINDS, "noload": NOLOAD_KINDS}[tree[1]])
@@ -95,7 +102,7 @@ def render(tree, path, rnd, ids, scalars):
             name = "vp.fx_translate.rebind_%d" % ident
         else:
             name = "vp.fx_translate.%s_%d" % (kind, ident)
-        items = [(key, render(t, path + [["k", key]], rnd, ids, scalars)) for key, t in tree[2]]
+        items = [(key, render(t, path + [["k", key]], rnd, ids, scalars)) for key, t in tree[2]]  # (keyword names stay strings)
         # __type__ goes first, last or in the middle - its position must not matter
         pos = rnd.randrange(len(items) + 1)
         items.insert(pos, ("__type__", name))
@@ -116,7 +123,7 @@ def encode(val, by_id, scalars):
     if isinstance(val, dict):
         if "__type__" in val:
             return ["X", "untranslated __type__ mapping"]
-        return ["M", [[k, encode(v, by_id, scalars)] for k, v in val.items()]]
+        return ["M", [[(KEYBACK.get(str(k), k) if KEYS_ODD[0] and not isinstance(k, str) else k), encode(v, by_id, scalars)] for k, v in val.items()]]
     for tok, s in scalars.items():
         if type(s) is type(val) and s == val:
             return ["S", tok]
@@ -134,7 +141,7 @@ def tokenize_where(where):
         if m.start() != pos:
             return [["x", where]]
         pos = m.end()
-        out.append(["k", m.group(1)] if m.group(1) is not None else ["i", int(m.group(2))])
+        out.append(["k", (KEYBACK.get(m.group(1), m.group(1)) if KEYS_ODD[0] else m.group(1))] if m.group(1) is not None else ["i", int(m.group(2))])
     if pos != len(where):
         return [["x", where]]
     return out
@@ -152,6 +159,7 @@ def execute(case):
         s2 = "other"
     scalars = {1: s1, 2: s2}
     ids = {}
+    KEYS_ODD[0] = case["seed"] % 4 == 3
     concrete = render(case["tree"], [], rnd, ids, scalars)
     by_id = {ident: json.loads(pk) for pk, (ident, kind) in ids.items()}
     events = []
